@@ -125,6 +125,10 @@ def check_cfg(ctx, fx, cfg):
             ctx.viol("R05.9", "holder:%s@%s" % (o["def"], cfg), "a type outside the closed list holds a strong handle (its values keep actors alive): %s via %s" % (a["ty"][:80], a["paths"][0][:120]), fn=o["def"], site=fx.adts[o["def"]]["loc"] if o["def"] in fx.adts else None)
         elif ka:
             ctx.ok("R05.9", "holder:%s@%s" % (o["def"], cfg), fx.adts[o["def"]]["loc"] if o["def"] in fx.adts else None, HOLDERS[o["def"]])
+    # R05.11 "first handles every message already accepted": what sits in the queue runs its handler unconditionally when it
+    # is drained (shared with C01)
+    from props.c01 import check_payloads
+    check_payloads(ctx, fx, cfg, "R05.11")
     # R05.10 closed list of closures / futures that own a strong handle (each is a handle's internals, an operation that was
     # given the handle by value, a transient upgrade during one send, or construction); a new one is reported for review
     CLOSURE_HOLDERS = (
